@@ -42,6 +42,8 @@ type c01State struct {
 	b2   bool // bridge 2 exists
 	b3   bool // bridge 3 exists (created after bridge 2; nothing else is ever addressed to it)
 	rot  [2][2]bool
+	// non-empty: building the start state failed (a funded creator could not open the first bridge)
+	setup string
 }
 
 type c01Sys struct {
@@ -113,10 +115,12 @@ func (y *c01Sys) Root() *c01State {
 	}
 	w := world.NewL1(opt)
 	res := w.Deliver(w.Ctx, ophosttypes.NewMsgCreateBridge(world.Addr("creator").String(), world.BridgeConfig("proposer", "challenger", c01Period)))
-	if !res.OK() {
-		panic(res.Err)
-	}
 	s := &c01State{ctx: w.Ctx, w: w, sys: y, bal: map[string]int64{}}
+	if !res.OK() {
+		// reported by Check: a funded creator could not open the first bridge
+		s.setup = res.Err.Error()
+		return s
+	}
 	for _, a := range c01Accounts {
 		if a == "pool" {
 			for _, d := range c01Denoms {
@@ -352,6 +356,9 @@ func (y *c01Sys) Step(s *c01State, l engine.Letter) (*c01State, string, *engine.
 }
 
 func (y *c01Sys) Check(s *c01State) *engine.Violation {
+	if s.setup != "" {
+		return viol("balances-equal-ledger", "building the start state: CreateBridge by a creator who holds the registration fee (the proposer holds nothing) failed: %s", s.setup)
+	}
 	total := map[string]int64{}
 	for _, a := range c01Accounts {
 		addr := c01Addr(a)
